@@ -52,6 +52,7 @@ def gen_cases(tier):
                 for typ in ("PUBO", "PUSO"):
                     for rev in (False, True):
                         yield {"poly": rp.jdict(D), "type": typ, "scheme": QUICK_SCHEME[typ], "constraint": 0, "rev": rev}
+                    yield {"poly": rp.jdict(D), "type": typ, "scheme": QUICK_SCHEME[typ], "constraint": 0, "rev": False, "perm": 1 if typ == "PUBO" else 2}
         for D in gen.polys(N, maxterms, COEFS, minterms=1, need_deg=3):
             nt = len(D)
             for typ in TYPES:
@@ -64,6 +65,8 @@ def gen_cases(tier):
                 for sch in schemes:
                     for con in ((0,) if typ in ("PUBO", "PUSO") else ((0, 1) if tier == "quick" or nt > 2 else (0, 1, 2))):
                         yield {"poly": rp.jdict(D), "type": typ, "scheme": sch, "constraint": con, "rev": False}
+                        if nt == 1 and con == 0 and sch in ("int", "str", "gap", "tuple"):
+                            yield {"poly": rp.jdict(D), "type": typ, "scheme": sch, "constraint": con, "rev": False, "perm": 1 if typ in ("PUBO", "PCSO") else 2}
                         if nt == 2 and con == 0 and (tier != "quick" or sch in ("int", "str")):
                             # same terms inserted in the opposite order (mapping and reduction order follow insertion order)
                             yield {"poly": rp.jdict(D), "type": typ, "scheme": sch, "constraint": con, "rev": True}
@@ -77,6 +80,8 @@ def build_model(case):
         D = dict(reversed(list(D.items())))
     labels = gen.labels_for(case["scheme"], N)
     M = gen.build(case["type"], D)
+    if case.get("perm"):
+        gen.permute_mapping(M, "setmap" if case["perm"] == 1 else "setrev")    # user-chosen enumeration (documented API)
     con = case["constraint"]
     if con == 1:      # constraint without ancilla (sum <= 1 special form adds a quadratic term)
         M.add_constraint_le_zero({(labels[0],): 1, (labels[1],): 1, (): -1}, lam=2)
@@ -223,7 +228,7 @@ def check(case, st):
 def run(ctx):
     ctx.bounds = {"n": N, "coefs": COEFS, "max_terms": 2 if ctx.quick else 3, "types": TYPES, "targets": [list(t) for t in targets()],
                   "penalties": PENALTIES, "pairs": "none; with the default penalty also each single pair of model variables, a pair with an unknown label, and 4 sets of two disjoint pairs",
-                  "quick_extra": "all 3-term models of monomials of degree >= 3 over {1,-2} as PUBO/PUSO",
+                  "quick_extra": "all 3-term models of monomials of degree >= 3 over {1,-2} as PUBO/PUSO (both insertion orders, and with a cyclically shifted user-set mapping); one-term models also with a user-set mapping",
                   "schemes": QUICK_SCHEME if ctx.quick else "all six for <=2 terms, one per type for 3 terms", "max_ancillas": MAX_ANC,
                   "pc_constraints": "none / sum<=1 (no ancilla)" + ("" if ctx.quick else " / slack constraint whose ancilla is a model variable")}
     ctx.rule = "case = (polynomial with a term of degree>=3, type, label scheme, recorded constraint); every target x penalty x pairs inside; all are non-trivial"
@@ -232,5 +237,5 @@ def run(ctx):
 
 def replay(case):
     st = Stats()
-    check({k: case.get(k) for k in ("poly", "type", "scheme", "constraint", "rev")}, st)
+    check({k: case.get(k) for k in ("poly", "type", "scheme", "constraint", "rev", "perm")}, st)
     return [(s, m) for s, c, m in st.viol]
